@@ -42,6 +42,10 @@ THEOREMS: list[str] = [
     "IrVerif.Passes.C05_lift_sub_inits",
     "IrVerif.Passes.C05_toposort",
     "IrVerif.Passes.C05_cse_skips",
+    "IrVerif.Inline.C05_inline_partial",
+    "IrVerif.Inline.C05_call_depth",
+    "IrVerif.Inline.C05_unused_functions",
+    "IrVerif.Inline.C05_unused_opsets",
 ]
 ASSUMPTIONS = [
     "operator semantics = onnx.reference.ReferenceEvaluator (onnx 1.22) on 2 generated input sets per model; "
@@ -51,14 +55,29 @@ ASSUMPTIONS = [
     "generated models use a fixed family of small static shapes and opset 18/20",
     "Lean semantics: total sequential evaluation of an SSA graph nest for an ARBITRARY operator interpretation "
     "`sem` (any function: determinism only), Identity and Constant fixed, graph attributes denoted under the current "
-    "environment; names, types, shapes, metadata, opset imports are not part of the modelled IR; a model-local "
-    "function body is a graph and a call site is an operator interpreted by `sem` (the link call = body is not "
-    "formalised: InlinePass / RemoveUnusedFunctionsPass are differential only)",
+    "environment; names, types, shapes, metadata, opset versions are not part of the modelled IR; in Model/Sem.lean a "
+    "model-local function body is a graph and a call site is an operator interpreted by `sem`",
+    "function-call IR (Model/Inline.lean, theorems C05_inline_partial / C05_call_depth / C05_unused_functions / "
+    "C05_unused_opsets): a call denotes the body of the function under the call's inputs (missing ones absent) and "
+    "attribute bindings (call attributes, then defaults; reference attributes resolved in the enclosing binding, "
+    "absent when unbound), unrolled to a depth; evaluated argument lists are trimmed of trailing absent values; "
+    "validF (validModel of the erased model, distinct function ids, non-recursive call graph, call sites fit their "
+    "functions, no reference attribute on a call whose function declares a default for it, no stochastic operator "
+    "and no input-that-is-initializer subgraph in function bodies) and flatFuncs (function bodies without calls: the "
+    "extra hypothesis of C05_inline_partial) are evaluated by the driver on every generated case: fcorr_valid / "
+    "fcorr_flat / fcorr_hyp_partial / fcorr_assumption_unmet in the distribution; nested calls (flatFuncs false) are "
+    "compared with the model (inlAt) and evaluated by the oracle but not covered by a theorem",
+    "InlinePass model: total function; the error exits of the real pass (opset version mismatch, graph attribute "
+    "parameters, more inputs than the function has, outer-scope value in a function body) are outside validF: when "
+    "the real pass raises, the driver must report validF false (fcorr_raised_checked); if the unrolling budget of the "
+    "model runs out or a call to a deleted function would remain the model returns the input (driver flags stuck / "
+    "dangling; either is a disagreement); opset-import bookkeeping of InlinePass is not modelled (domains are compared "
+    "for RemoveUnusedOpsetsPass only); InlinePass(criteria=even) = criteria on the parity of the function name",
     "hypotheses of the theorems (validModel: SSA, outputs bound in their graph, topologically ordered, scoped) "
     "are evaluated by the driver on every generated case: counted as "
     "corr_valid / corr_chain_ok / corr_assumption_unmet in the distribution",
     "no Lean model (differential only): AddDefaultAttributesPass, ShapeInferencePass, CheckerPass (ONNX C++ "
-    "schemas), InlinePass, RemoveUnusedFunctionsPass, RemoveUnusedOpsetsPass, and the schema-driven optional-output "
+    "schemas), and the schema-driven optional-output "
     "trimming inside RemoveUnusedNodesPass (the correspondence runs that pass with _remove_unused_optional_outputs "
     "disabled; the oracle runs the real pass)",
     "not compared with the model (counted as corr_skipped): "
@@ -116,9 +135,8 @@ MODELLED = {
 }
 # no Lean model (differential only: the oracle above is the whole check for these)
 UNMODELLED_NOTE = (
-    "AddDefaultAttributesPass, ShapeInferencePass, CheckerPass (ONNX C++ schemas), InlinePass, "
-    "RemoveUnusedFunctionsPass, RemoveUnusedOpsetsPass and the schema-driven output trimming of "
-    "RemoveUnusedNodesPass"
+    "AddDefaultAttributesPass, ShapeInferencePass, CheckerPass (ONNX C++ schemas) and the schema-driven output "
+    "trimming of RemoveUnusedNodesPass"
 )
 
 
@@ -437,6 +455,12 @@ def correspond(part, case_id, ir_model_before_factory, seq_names):
             break
         if lean_name is None:
             close_segment(before)
+        if name in FMODELLED:
+            # function-call IR (Model/Inline.lean): own encoding, own driver command; applies the real pass
+            if not _fcorr_step(part, case_id, name, model, i):
+                break
+            last_enc = None
+            continue
         skip = None
         if lean_name == "dce" and enc.has_ghost_uses():
             # Value.uses() still lists nodes of subgraphs of nodes removed by an earlier pass of this
@@ -503,6 +527,9 @@ def corr_flush(part) -> None:
         if "err" in out:
             part.disagree(f"driver error at {kind} {where}: {out['err']}", case_id, out, None)
             continue
+        if kind in ("fstep", "fraised"):
+            _fcorr_check(part, _req, kind, where, expect, case_id, out)
+            continue
         if kind == "reorder":
             ok = out.get("reorder") and out.get("valid_b") and (out.get("valid_a") or where[0] == "a->b")
             if where[0] == "a->b" and where[1] and out.get("valid_a"):
@@ -540,6 +567,223 @@ def corr_flush(part) -> None:
             )
         else:
             part.count("corr_agree")
+
+
+
+# --- function-call models (lean/IrVerif/Model/Inline.lean, driver commands inline.run / inline.ruf / inline.ruo) ----
+# real pass name -> (driver command, extra request fields); theorems C05_inline*, C05_unused_functions, C05_unused_opsets
+FMODELLED = {
+    "InlinePass": ("inline.run", {"crit": None}),
+    "InlinePass(criteria=even)": ("inline.run", {"crit": "even"}),
+    "RemoveUnusedFunctionsPass": ("inline.ruf", {}),
+    "RemoveUnusedOpsetsPass": ("inline.ruo", {"pf": True}),
+    "RemoveUnusedOpsetsPass(no_functions)": ("inline.ruo", {"pf": False}),
+}
+
+
+def _crit_even(f) -> bool:
+    """the `criteria` of the registry entry InlinePass(criteria=even): a predicate on the function alone"""
+    return sum(map(ord, f.name)) % 2 == 0
+
+
+class FEncoder(Encoder):
+    """onnx_ir.Model -> JSON of the function-call IR (FModel): reference attributes stay references, functions carry
+    their attribute parameters (name, default or null) and the domains of their opset imports."""
+
+    def attr(self, a) -> dict:
+        if a.is_ref():
+            if a.ref_attr_name is None:
+                raise Unencodable("reference attribute without a name")
+            return {"k": "ref", "v": a.ref_attr_name}
+        return super().attr(a)
+
+    def node(self, n) -> dict:
+        import onnx_ir as ir
+
+        T = ir.AttributeType
+        for a in n.attributes.values():
+            if a.is_ref() and a.type in (T.GRAPH, T.GRAPHS):
+                raise Unencodable("graph-valued reference attribute")
+        return super().node(n)
+
+    def func(self, f) -> dict:
+        params = []
+        for name, a in f.attributes.items():
+            params.append([name, None if a.value is None else super().attr(a)])
+        d, t, o = f.identifier()
+        g = self.graph(f)
+        return {"id": [d, t, o], "p": params, "i": g["i"], "o": g["o"], "n": g["n"], "d": list(f.opset_imports)}
+
+    def model(self, m) -> dict:
+        return {"g": self.graph(m.graph), "f": [self.func(f) for f in m.functions.values()],
+                "d": list(m.opset_imports)}
+
+
+def fcanon(mj: dict, domains: bool) -> dict:
+    """value ids renamed by first appearance in a fixed walk; opaque attribute classes likewise; opset domains
+    (sorted: a dictionary) only where the pass is about them"""
+    ren: dict[int, int] = {}
+    uids: dict[tuple, int] = {}
+
+    def r(v):
+        if v is None:
+            return None
+        if v not in ren:
+            ren[v] = len(ren)
+        return ren[v]
+
+    def attr(a):
+        if a is None or a["k"] != "opaque":
+            return a
+        key = (a["v"]["tag"], a["v"]["uid"])
+        if key not in uids:
+            uids[key] = len(uids)
+        return {"k": "opaque", "v": {"tag": a["v"]["tag"], "uid": uids[key]}}
+
+    def graph(g):
+        return {"i": [r(v) for v in g["i"]], "t": [[r(p[0]), p[1]] for p in g["t"]],
+                "n": [node(n) for n in g["n"]], "o": [r(v) for v in g["o"]]}
+
+    def node(n):
+        return {"op": n["op"], "a": sorted([[p[0], attr(p[1])] for p in n["a"]], key=lambda p: p[0]),
+                "in": [r(v) for v in n["in"]], "out": [r(v) for v in n["out"]], "b": [graph(b) for b in n["b"]]}
+
+    def func(f):
+        out = {"id": f["id"], "p": [[p[0], attr(p[1])] for p in f["p"]], "i": [r(v) for v in f["i"]],
+               "n": [node(n) for n in f["n"]], "o": [r(v) for v in f["o"]]}
+        if domains:
+            out["d"] = sorted(f["d"])
+        return out
+
+    out = {"g": graph(mj["g"]), "f": [func(f) for f in mj["f"]]}
+    if domains:
+        out["d"] = sorted(mj["d"])
+    return out
+
+
+def _fmodel_stats(fm: dict) -> dict:
+    """what the generated case exercises (histogram keys of the function-call stream)"""
+    fids = {tuple(f["id"]) for f in fm["f"]}
+    st = {"calls_main": 0, "calls_in_sub": 0, "calls_in_fn": 0, "ref_attrs": 0, "ref_on_call": 0, "fn_sub": 0,
+          "fn_params": 0, "fn_defaults": 0, "short_call": 0, "passthrough": 0}
+
+    def walk(nodes, where, depth):
+        for n in nodes:
+            is_call = tuple(n["op"]) in fids
+            if is_call:
+                st["calls_in_fn" if where == "fn" else ("calls_in_sub" if depth else "calls_main")] += 1
+                f = next(f for f in fm["f"] if tuple(f["id"]) == tuple(n["op"]))
+                if len(n["in"]) < len(f["i"]) or any(v is None for v in n["in"]):
+                    st["short_call"] += 1
+            for _k, a in n["a"]:
+                if a["k"] == "ref":
+                    st["ref_attrs"] += 1
+                    if is_call:
+                        st["ref_on_call"] += 1
+            for b in n["b"]:
+                if where == "fn":
+                    st["fn_sub"] += 1
+                walk(b["n"], where, depth + 1)
+
+    walk(fm["g"]["n"], "main", 0)
+    for f in fm["f"]:
+        walk(f["n"], "fn", 0)
+        st["fn_params"] += len(f["p"])
+        st["fn_defaults"] += sum(1 for p in f["p"] if p[1] is not None)
+        if any(o in f["i"] for o in f["o"]):
+            st["passthrough"] += 1
+    return st
+
+
+def _fcorr_step(part, case_id, name: str, model, where, crit=None) -> bool:
+    """one step of the function-call correspondence: encode, apply the real pass (to `model`, in place), encode
+    again, queue the driver request; returns False when the real pass raised"""
+    cmd, extra = FMODELLED[name]
+    try:
+        before = FEncoder().model(model)
+    except Unencodable as e:
+        part.count("fcorr_skipped:unencodable:" + str(e)[:40])
+        try:
+            _run_real(name, model)
+        except Exception:  # noqa: BLE001
+            return False
+        return True
+    req = {"m": cmd, "model": before, **extra}
+    if extra.get("crit") == "even":
+        crit = [tuple(f.identifier()) for f in model.functions.values() if _crit_even(f)]
+    try:
+        if cmd == "inline.run" and crit is not None:
+            from onnx_ir.passes import common as P
+
+            ids = {tuple(i) for i in crit}
+            req["crit"] = [list(i) for i in sorted(ids)]
+            res = P.InlinePass(criteria=lambda f: tuple(f.identifier()) in ids)(model)
+        else:
+            res = _run_real(name, model)
+    except Exception as e:  # noqa: BLE001
+        # the theorems assume validF: a model on which the real pass raises must not satisfy it
+        part.count("fcorr_real_pass_raised:" + _base_name(name) + ":" + type(e).__name__)
+        if cmd == "inline.run":
+            _CORR_BUF.append((req, "fraised", [where, name, type(e).__name__, str(e)[:200]], None, case_id))
+        return False
+    try:
+        after = FEncoder().model(model)
+    except Unencodable as e:
+        part.count("fcorr_skipped:unencodable:" + str(e)[:40])
+        return True
+    stats = _fmodel_stats(before)
+    for k, v in stats.items():
+        if v:
+            part.count(f"fcorr_feat:{k}")
+    if cmd == "inline.run" and stats["passthrough"]:
+        # D300: a function that returns one of its inputs is outside validF (the repaired pass forwards the value
+        # through an Identity node that the model does not insert yet): evaluation oracle only
+        part.count("fcorr_skipped:passthrough_output")
+        return True
+    _CORR_BUF.append((req, "fstep", [where, name, bool(res.modified), crit is not None],
+                      fcanon(after, domains=(cmd == "inline.ruo")), case_id))
+    return True
+
+
+def _fcorr_check(part, req, kind, where, expect, case_id, out) -> None:
+    """compare one driver answer of the function-call models with the real result"""
+    if kind == "fraised":
+        part.count("fcorr_raised_checked")
+        if out.get("valid"):
+            part.disagree(f"{where[1]} raised {where[2]} ({where[3]}) on a model that satisfies validF (the hypotheses "
+                          f"of C05_inline)", case_id, {"valid": True}, "raised")
+        else:
+            part.count("fcorr_raised_on_invalid:" + "+".join(out.get("why", [])))
+        return
+    name, modified = where[1], where[2]
+    cmd = req["m"]
+    if cmd == "inline.run":
+        part.count("fcorr_valid=" + str(out.get("valid")))
+        if not out.get("valid"):
+            part.count("fcorr_assumption_unmet:" + "+".join(out.get("why", [])))
+        part.count("fcorr_flat=" + str(out.get("flat")))
+        part.count("fcorr_hyp_partial=" + str(bool(out.get("valid") and out.get("flat"))))
+        part.count("fcorr_valid_after=" + str(out.get("valid_after")))
+        if out.get("stuck") or out.get("dangling"):
+            part.disagree(f"{name} at {where[0]}: the model fell back to the unchanged model (stuck={out.get('stuck')}, "
+                          f"dangling={out.get('dangling')})", case_id, [out.get("stuck"), out.get("dangling")], None)
+        if bool(out.get("count")) != modified:
+            part.disagree(f"{name} at {where[0]}: modified flag {modified} but the model inlined {out.get('count')} calls",
+                          case_id, out.get("count"), modified)
+        part.count("fcorr_inlined=" + ("0" if not out.get("count") else "1-2" if out["count"] <= 2 else "3-5" if out["count"] <= 5 else ">5"))
+        if where[3]:
+            part.count("fcorr_with_criteria")
+    elif cmd == "inline.ruf":
+        if not out.get("closed"):
+            part.disagree(f"{name} at {where[0]}: the model's used set is not closed", case_id, out.get("used"), None)
+        part.count("fcorr_ruf_modified=" + str(modified))
+    got = fcanon(out["model"], domains=(cmd == "inline.ruo"))
+    if got != expect:
+        part.disagree(f"fstep {where}: model result != real pass result at {first_diff(got, expect)}",
+                      case_id, _trunc(got), _trunc(expect))
+    else:
+        part.count("corr_agree")
+        part.count("fcorr_agree:" + _base_name(name))
 
 
 # === END CORRESPONDENCE =======================================================================
@@ -1778,6 +2022,7 @@ def _passes() -> dict:
         "DeduplicateInitializersPass(size_limit=4)": lambda: P.DeduplicateInitializersPass(size_limit=4),
         "IdentityEliminationPass": P.IdentityEliminationPass,
         "InlinePass": P.InlinePass,
+        "InlinePass(criteria=even)": lambda: P.InlinePass(criteria=_crit_even),
         "LiftConstantsToInitializersPass": P.LiftConstantsToInitializersPass,
         "LiftConstantsToInitializersPass(all,0)": lambda: P.LiftConstantsToInitializersPass(
             lift_all_constants=True, size_limit=0),
@@ -1861,6 +2106,8 @@ _CHAINS = [
     ["ClearMetadataAndDocStringPass", "CommonSubexpressionEliminationPass"],
     ["RemoveUnusedNodesPass", "CommonSubexpressionEliminationPass", "RemoveUnusedNodesPass"],
     ["InlinePass", "LiftConstantsToInitializersPass(all,0)", "DeduplicateHashedInitializersPass", "RemoveUnusedNodesPass"],
+    ["InlinePass(criteria=even)", "RemoveUnusedFunctionsPass", "InlinePass"],
+    ["InlinePass(criteria=even)", "RemoveUnusedNodesPass", "RemoveUnusedOpsetsPass"],
 ]
 
 
@@ -2352,6 +2599,11 @@ def _classify(kind: str, pass_name: str, model: onnx.ModelProto, fail: dict) -> 
     inits = {t.name for t in g.initializer}
     in_names = {i.name for i in g.input if i.name not in inits}
     out_names = [o.name for o in g.output]
+    if kind.startswith("io-rename") and base == "InlinePass" and any(
+            any(o in list(f.input) for o in f.output) for f in model.functions):
+        # D300: a function that returns one of its inputs: replace_nodes_and_values copies the name (type, shape) of
+        # the call's output onto the caller's value, here a graph input / a value that is also a graph output
+        return "function-passthrough-output"
     if kind.startswith("io-"):
         after_names: list = []
         try:
@@ -2952,6 +3204,110 @@ def _stochastic_twins_stream(part) -> None:
                        lambda b=raw: ir.serde.deserialize_model(_parse(b)), [name])
 
 
+def _ref_attr(name: str, ref: str, typ) -> "onnx.AttributeProto":
+    a = onnx.AttributeProto()
+    a.name, a.ref_attr_name, a.type = name, ref, typ
+    return a
+
+
+def _fn_edge_models() -> list[tuple[str, bytes]]:
+    """hand-built checker-valid models around the corners of function calls that the random generator reaches
+    rarely or never: pass-through and repeated function outputs, calls that supply fewer inputs, reference
+    attributes that stay references when a call is inlined into a function body, unused functions that call
+    functions, calls inside control flow, control flow with captures and initializers inside a function body,
+    several calls of one function"""
+    vi = oh.make_tensor_value_info
+    imp = [oh.make_opsetid("", 18), oh.make_opsetid("local", 1)]
+    FLOAT = onnx.AttributeProto.FLOAT
+    out: list[tuple[str, bytes]] = []
+
+    def add(tag, nodes, funcs, ins=(("x", [3]),), outs=(("y", [3]),), inits=()):
+        try:
+            g = oh.make_graph(list(nodes), "g", [vi(n, _F, sh) for n, sh in ins], [vi(n, _F, sh) for n, sh in outs],
+                              initializer=list(inits))
+            m = oh.make_model(g, opset_imports=imp, ir_version=10, functions=list(funcs))
+            onnx.checker.check_model(m)
+            out.append((tag, m.SerializeToString()))
+        except Exception:  # noqa: BLE001 - a corner the checker rejects is not a case
+            pass
+
+    call = lambda name, i, o, **kw: oh.make_node(name, i, o, domain="local", **kw)  # noqa: E731
+    # pass-through output: F(a, b) => (Neg(a), b)
+    f_pass = oh.make_function("local", "Fp", ["a", "b"], ["c", "b"], [oh.make_node("Neg", ["a"], ["c"])], imp[:1])
+    add("passthrough", [call("Fp", ["x", "w"], ["p", "q"]), oh.make_node("Add", ["p", "q"], ["y"])], [f_pass],
+        ins=(("x", [3]), ("w", [3])))
+    # pass-through of a graph input that is also read later and is a graph output
+    add("passthrough_io", [call("Fp", ["x", "w"], ["p", "q"]), oh.make_node("Mul", ["q", "w"], ["y"])], [f_pass],
+        ins=(("x", [3]), ("w", [3])), outs=(("y", [3]), ("p", [3])))
+    # the same value twice among the function outputs
+    f_dup = oh.make_function("local", "Fd", ["a"], ["c", "c"], [oh.make_node("Abs", ["a"], ["c"])], imp[:1])
+    add("dup_outputs", [call("Fd", ["x"], ["p", "q"]), oh.make_node("Sub", ["p", "q"], ["y"])], [f_dup])
+    # a call that supplies fewer inputs than the function declares (the missing one is not read)
+    f_opt = oh.make_function("local", "Fo", ["a", "b"], ["c"], [oh.make_node("Relu", ["a"], ["c"])], imp[:1])
+    add("short_call", [call("Fo", ["x"], ["y"])], [f_opt])
+    # nested calls, reference attribute passed on as a reference: Fb(beta) calls Ga(alpha=@beta)
+    ga_node = oh.make_node("LeakyRelu", ["a"], ["b"])
+    ga_node.attribute.append(_ref_attr("alpha", "alpha", FLOAT))
+    ga = oh.make_function("local", "Ga", ["a"], ["b"], [ga_node], imp[:1], attributes=["alpha"])
+    inner = call("Ga", ["a"], ["t"])
+    inner.attribute.append(_ref_attr("alpha", "beta", FLOAT))
+    fb = oh.make_function("local", "Fb", ["a"], ["b"], [inner, oh.make_node("Neg", ["t"], ["b"])], imp, attributes=["beta"])
+    add("ref_chain", [call("Fb", ["x"], ["u"], beta=0.25), call("Ga", ["u"], ["y"], alpha=0.5)], [ga, fb])
+    # the same with a default on the callee (the hypothesis of the theorem excludes it; the model must still agree)
+    gd = oh.make_function("local", "Gd", ["a"], ["b"], [ga_node], imp[:1],
+                          attribute_protos=[oh.make_attribute("alpha", 2.0)])
+    inner_d = call("Gd", ["a"], ["t"])
+    inner_d.attribute.append(_ref_attr("alpha", "beta", FLOAT))
+    fd = oh.make_function("local", "Fe", ["a"], ["b"], [inner_d], imp, attributes=["beta"])
+    add("ref_chain_default", [call("Fe", ["x"], ["y"], beta=0.25)], [gd, fd])
+    # an unused function that calls a used one and an unused one
+    leaf = oh.make_function("local", "L1", ["a"], ["b"], [oh.make_node("Abs", ["a"], ["b"])], imp[:1])
+    leaf2 = oh.make_function("local", "L2", ["a"], ["b"], [oh.make_node("Neg", ["a"], ["b"])], imp[:1])
+    dead = oh.make_function("local", "Dd", ["a"], ["b"], [call("L1", ["a"], ["t"]), call("L2", ["t"], ["b"])], imp)
+    add("unused_calls", [call("L1", ["x"], ["y"])], [leaf, leaf2, dead])
+    # three levels, several calls of one function
+    mid = oh.make_function("local", "Md", ["a"], ["b"], [call("L1", ["a"], ["t"]), call("L1", ["t"], ["u"]),
+                                                           call("L2", ["u"], ["b"])], imp)
+    top = oh.make_function("local", "Tp", ["a"], ["b"], [call("Md", ["a"], ["t"]), call("L2", ["t"], ["b"])], imp)
+    add("three_levels", [call("Tp", ["x"], ["u"]), call("Md", ["u"], ["v"]), call("Tp", ["v"], ["y"])], [leaf, leaf2, mid, top])
+    # a call inside an If branch that captures an outer value; a function whose body has an If with a capture
+    # and an initializer
+    then_g = oh.make_graph([call("L2", ["x"], ["tb"])], "then", [], [vi("tb", _F, [3])])
+    else_g = oh.make_graph([oh.make_node("Add", ["x", "k"], ["eb"])], "else", [], [vi("eb", _F, [3])],
+                           initializer=[onh.from_array(np.array([1.0, 2.0, 3.0], dtype=np.float32), "k")])
+    cond = oh.make_node("Constant", [], ["c"], value=onh.from_array(np.array(True), "cv"))
+    add("call_in_if", [cond, oh.make_node("If", ["c"], ["y"], then_branch=then_g, else_branch=else_g)], [leaf2])
+    f_then = oh.make_graph([oh.make_node("Mul", ["a", "k2"], ["ft"])], "fthen", [], [vi("ft", _F, [3])],
+                           initializer=[onh.from_array(np.array([2.0, 2.0, 2.0], dtype=np.float32), "k2")])
+    f_else = oh.make_graph([oh.make_node("Neg", ["a"], ["fe"])], "felse", [], [vi("fe", _F, [3])])
+    f_if = oh.make_function("local", "Fi", ["a", "c"], ["b"],
+                            [oh.make_node("If", ["c"], ["b"], then_branch=f_then, else_branch=f_else)], imp[:1])
+    add("if_in_function", [cond, call("Fi", ["x", "c"], ["u"]), call("Fi", ["u", "c"], ["y"])], [f_if])
+    return out
+
+
+def _fn_edge_stream(part) -> None:
+    import onnx_ir as ir
+
+    seqs = [["InlinePass"], ["InlinePass(criteria=even)"], ["RemoveUnusedFunctionsPass"],
+            ["InlinePass", "RemoveUnusedFunctionsPass", "RemoveUnusedOpsetsPass"],
+            ["InlinePass(criteria=even)", "RemoveUnusedFunctionsPass", "InlinePass"]]
+    state: dict = {}
+    for tag, raw in _fn_edge_models():
+        part.count("fn_edge_models")
+        part.count("fn_edge:" + tag)
+        proto = _parse(raw)
+        try:
+            inputs = _default_inputs(proto)
+        except Exception:  # noqa: BLE001
+            part.count("fn_edge_inputs_error:" + tag)
+            continue
+        for seq in seqs:
+            case_id = {"stream": "fn-edge", "tag": tag, "sha1": _sha(raw), "seq": seq}
+            oracle(part, case_id, proto, seq, inputs, {}, state)
+            correspond(part, case_id, lambda b=raw: ir.serde.deserialize_model(_parse(b)), seq)
+
+
 def _work(chunk: tuple) -> dict:
     seed, index, n_models = chunk
     _quiet()
@@ -3041,6 +3397,7 @@ def run(ctx: Ctx) -> None:
         correspond(part, {"corpus": True}, lambda b=proto.SerializeToString(): ir.serde.deserialize_model(_parse(b)),
                    list(case["seq"]))
     _stochastic_twins_stream(part)
+    _fn_edge_stream(part)
     corr_flush(part)
     ctx.merge(part)
     n = ctx.pick(320, 6400)
